@@ -412,10 +412,17 @@ class CallsMixin:
         """an interior pointer passed inside an interface value (e.g. &x.f as `any`): the callee may
         write through it, whatever its contract says about named locations"""
         for a in args:
-            if isinstance(a, Val) and self.types.kind(a.t) == 'iface' and a.loc is not None:
-                nv = V.fresh_val(self.types, a.loc.t, 'boxedptr')
-                st.store(a.loc, nv)
-                st.load(a.loc)
+            if isinstance(a, Val) and self.types.kind(a.t) == 'iface':
+                l = a.loc
+                if l is None:
+                    try:
+                        l = V.loc_of_handle(a.lv[('p',)])
+                    except OutOfSubset:
+                        l = None
+                if l is not None:
+                    nv = V.fresh_val(self.types, l.t, 'boxedptr')
+                    st.store(l, nv)
+                    st.load(l)
 
     def stable_snapshot(self, st, fr):
         """(text, loc, value) of the locations declared frame-stable, and of the cells of the
@@ -600,20 +607,32 @@ class CallsMixin:
         try:
             env = {}
             if sig is not None:
-                isreal = set()
+                placeholders = set()
                 for k, p in enumerate(sig.get('params') or []):
                     if real is not None and k < len(real) and real[k] is not None:
                         env[p['name']] = real[k]
-                        isreal.add(id(real[k]))
                     else:
-                        env[p['name']] = V.fresh_val(types, p['type'], 'w_' + p['name'])
-                realrefs = []
-                for v in (real or []):
-                    if v is not None and v.lv:
-                        realrefs += [t for t in v.lv.values() if z3.is_int(t)]
+                        fv = V.fresh_val(types, p['type'], 'w_' + p['name'])
+                        env[p['name']] = fv
+                        for t in (fv.lv or {}).values():
+                            placeholders.add(t.get_id())
 
                 def known(ref):
-                    return any(ref.eq(t) for t in realrefs)
+                    # the reference is determined by arguments that are fixed across iterations
+                    if real is None:
+                        return False
+                    todo = [ref]
+                    seen = set()
+                    while todo:
+                        x = todo.pop()
+                        i = x.get_id()
+                        if i in seen:
+                            continue
+                        seen.add(i)
+                        if i in placeholders:
+                            return False
+                        todo.extend(x.children())
+                    return True
             else:
                 return 'all'
             ev = Ev(self.cx, tmp, env, con.pkg, None, con.imports)
